@@ -100,8 +100,9 @@ def interp_level(ctx: Ctx):
             xf = [Fraction(t) for t in x]
             if lagr.near_threshold(gn, xf):
                 continue
-            xin = {v: np.array([x[i]]) for i, v in enumerate(names)}
-            case = {**case0, 'x': x, 'kinds': kinds}
+            korder = rng.sample(range(d), d)               # the caller's dict may list the inputs in any order
+            xin = {names[i]: np.array([x[i]]) for i in korder}
+            case = {**case0, 'x': x, 'kinds': kinds, 'input_key_order': [names[i] for i in korder]}
             try:
                 g = interp.gradient(xin, st, (xt, ys))
             except Exception as e:
@@ -159,7 +160,7 @@ def component_level(ctx: Ctx):
         nx = rng.choice([1, 2, 2, 3]); ny = rng.randint(1, 2); kpl = rng.randint(1, 2); na = rng.randint(0, 1)
         levels = [rng.randint(1, 2) for _ in range(nx)]
         doms = [(lo := rng.choice([-1.0, 0.0, 3.0]), lo + rng.choice([1.0, 2.0])) for _ in range(nx)]
-        comp, terms = p_exact.build_poly_component(rng, nx, na, ny, levels, kpl, doms, name='g')
+        comp, terms = p_exact.build_poly_component(rng, nx, na, ny, levels, kpl, doms, name='g', alpha_gain=(0.375 if na else 0.0))
         mx = (2,) * na + tuple(levels)
         order = p_exact.random_order(rng, mx, rng.randint(1, 6))
         # an arbitrary (not resolvable) polynomial: the derivative of the *surrogate* is what is checked
@@ -195,8 +196,9 @@ def component_level(ctx: Ctx):
                 if lagr.near_threshold(allg, xf):
                     continue
                 # kinds relative to the individual term grids: a coordinate on a node of the full grid may be off the nodes of a coarse term
-                xin = {v: np.array([x[k]]) for k, v in enumerate(names)}
-                case = {**case0, 'mode': mode, 'x': x, 'kinds': kinds}
+                korder = rng.sample(range(nx), nx)          # the caller's dict may list the inputs in any order
+                xin = {names[k]: np.array([x[k]]) for k in korder}
+                case = {**case0, 'mode': mode, 'x': x, 'kinds': kinds, 'input_key_order': [names[k] for k in korder]}
                 ctx.case(case, nontrivial=len(order) >= 2, kind='component:' + '/'.join(sorted(set(kinds))))
                 try:
                     g = comp.gradient(xin, index_set=mode)
